@@ -20,7 +20,9 @@ Record J (d : driver) : Prop := {
   j_len_c : length (dv_caps d) = length (dv_refs d);
   j_len_d : length (dv_dev d) = length (dv_refs d);
   j_pos : (1 <= length (dv_refs d))%nat;
-  j_refs : forall i, (i < length (dv_refs d))%nat -> cnt (dv_known d) i + idle i <= nth i (dv_refs d) 0;
+  (* round 4: EQUALITY — no leaked counts: a slot's count is exactly the number of known programs playing from it
+     (+1 for the idle slot 0) *)
+  j_refs : forall i, (i < length (dv_refs d))%nat -> cnt (dv_known d) i + idle i = nth i (dv_refs d) 0;
   j_progs : Forall (prog_ok (dv_dev d)) (dv_known d);
   j_belief : dv_hashes d = dv_dev d;
   j_names : NoDup (map pg_name (dv_known d));
@@ -350,6 +352,26 @@ Qed.
 Lemma assign_mask_nil w m : assign_mask w m [] = w.
 Proof. revert m; induction w as [|p w IH]; intros [|b m]; cbn; auto. destruct b; rewrite IH; reflexivity. Qed.
 
+(* entries outside the mask are kept *)
+Lemma assign_mask_keep w : forall m v j p,
+  nth_error w j = Some p -> nth_error m j = Some false -> nth_error (assign_mask w m v) j = Some p.
+Proof.
+  induction w as [|p' w IH]; intros [|b m] v [|j] p Hw Hm; cbn in *; try discriminate.
+  - inversion Hm; subst b. exact Hw.
+  - destruct b; [destruct v|]; cbn; apply IH; assumption.
+Qed.
+
+(* every assigned value appears in the result *)
+Lemma assign_mask_cover w : forall m (v : list Z),
+  length w = length m -> length v = count_true m -> forall r, (r < length v)%nat -> In (nth r v 0) (assign_mask w m v).
+Proof.
+  induction w as [|p w IH]; intros [|b m] v L1 L2 r Hr; unfold count_true in *; cbn in *; try lia.
+  destruct b; cbn in L2.
+  - destruct v as [|x v]; cbn in *; [lia|]. destruct r as [|r]; [left; reflexivity|right].
+    apply IH; unfold count_true; lia.
+  - right. apply IH; unfold count_true; lia.
+Qed.
+
 Lemma nth_error_lt_some {A} (l : list A) j : (j < length l)%nat -> exists x, nth_error l j = Some x.
 Proof. intros H. destruct (nth_error l j) eqn:E; eauto. apply nth_error_None in E. lia. Qed.
 
@@ -561,6 +583,41 @@ Section history.
           exists i. split; [reflexivity|]. split; [lia|].
           split; [|intros _ Hni; exfalso; apply Hni; apply in_map_iff; exists (i, (h, l)); auto].
           rewrite nth_firstn_app1 by lia. apply (Hwr i h l Hin). }
+    (* round 4 (equality of the counts): the new program really uses every slot it was counted for *)
+    assert (Hkeep : forall j p, nth_error w3 j = Some p -> nth_error (d_amend dec) j = Some false ->
+                                nth_error w4 j = Some p).
+    { intros j p Hp Hb. unfold w4. apply assign_mask_keep; assumption. }
+    assert (Hcover_w : forall i, In (Z.of_nat i) (d_w2s dec) -> In (Z.of_nat i) w4).
+    { intros i Hin. apply In_nth_error in Hin as (j & Hp0).
+      assert (Hj : (j < length segs)%nat).
+      { assert (Hne : nth_error (d_w2s dec) j <> None) by congruence. apply nth_error_Some in Hne. lia. }
+      destruct (nth_error_lt_some (d_amend dec) j ltac:(lia)) as (b & Hb).
+      destruct (nth_error_lt_some (d_insert dec) j ltac:(lia)) as (q & Hq).
+      pose proof (C4d j _ b q Hp0 Hb Hq) as Hone. unfold exactly_one in Hone.
+      assert (Hbq : b = false /\ q = -1).
+      { destruct Hone as [(_ & H2 & H3)|[(H1 & _)|(H1 & _)]]; [|exfalso; apply H1; lia|exfalso; apply H1; lia].
+        split; [destruct b; [exfalso; apply H3; reflexivity|reflexivity]|lia]. }
+      destruct Hbq as [-> ->].
+      eapply nth_error_In. apply Hkeep; [|exact Hb]. unfold w3.
+      rewrite (merge_w2s_nth _ _ _ _ _ Hp0 Hq). reflexivity. }
+    assert (Hcover_ins : forall s h l, In (s, (h, l)) ws -> In (Z.of_nat s) w4).
+    { intros s h l Hin. apply writes_of_spec in Hin as (j & q & Hq & Hpos & Hs & Hseg).
+      assert (Hj : (j < length segs)%nat).
+      { assert (Hne : nth_error segs j <> None) by congruence. apply nth_error_Some in Hne. exact Hne. }
+      destruct (nth_error_lt_some (d_amend dec) j ltac:(lia)) as (b & Hb).
+      destruct (nth_error_lt_some (d_w2s dec) j ltac:(lia)) as (p0 & Hp0).
+      pose proof (C4d j p0 b q Hp0 Hb Hq) as Hone. unfold exactly_one in Hone.
+      assert (Hbf : b = false).
+      { destruct Hone as [(_ & H2 & _)|[(_ & _ & H3)|(_ & H2 & _)]]; [exfalso; apply H2; lia| |exfalso; apply H2; lia].
+        destruct b; [exfalso; apply H3; reflexivity|reflexivity]. }
+      subst b. eapply nth_error_In. apply Hkeep; [|exact Hb]. unfold w3.
+      rewrite (merge_w2s_nth _ _ _ _ _ Hp0 Hq). assert (E : 0 <? q = true) by lia. rewrite E. f_equal. lia. }
+    assert (Hcover_am : forall r, (r < length segsA)%nat -> In (fidx r) w4).
+    { intros r Hr. unfold w4.
+      replace (fidx r) with (nth r (map fidx (seq 0 (length segsA))) 0).
+      2:{ rewrite (nth_map_lt fidx _ _ _ 0%nat) by (rewrite seq_length; exact Hr). rewrite seq_nth by exact Hr. reflexivity. }
+      apply assign_mask_cover; [exact Hm_w3| |rewrite map_length, seq_length; exact Hr].
+      rewrite map_length, seq_length. unfold segsA. apply mask_length. lia. }
     (* no old program uses a slot that the cleanup drops *)
     assert (Hold_lt : forall p i, In p (dv_known d1) -> uses p i = true -> (i < F)%nat /\ ~ In i (map fst ws)).
     { intros p i Hp Hu.
@@ -574,11 +631,10 @@ Section history.
     - rewrite !firstn_app_length, !map_length by lia. reflexivity.
     - rewrite !firstn_app_length, !map_length by lia. reflexivity.
     - rewrite firstn_app_length by lia. lia.
-    - (* reference counts dominate the number of programs using a slot *)
+    - (* reference counts EQUAL the number of programs using a slot (+ idle) *)
       rewrite firstn_app_length, map_length by lia. intros i Hi. rewrite cnt_cons. rewrite Hk3.
       cbn [d2 with_refs dv_known].
-      assert (Hle1 : (if uses {| pg_name := name; pg_w2s := w4; pg_segs := map fst segs |} i then 1 else 0) <= 1)
-        by (destruct (uses _ i); lia).
+      set (newp := {| pg_name := name; pg_w2s := w4; pg_segs := map fst segs |}).
       destruct (Nat.lt_ge_cases i F) as [Hlt|Hge].
       + rewrite nth_firstn_app1 by lia.
         assert (Hltn : (i < n)%nat) by lia.
@@ -587,22 +643,28 @@ Section history.
           destruct (Hwr i h l Hin) as [H1 _]. rewrite H1.
           destruct (Hw i h l Hin) as (_ & _ & _ & Hz & _).
           pose proof (j_refs _ I i Hltn) as Hr. pose proof (cnt_nonneg (dv_known d1) i).
-          assert (idle i = 0). { unfold idle. destruct (Nat.eqb_spec i 0); [subst; lia|reflexivity]. }
-          lia.
+          assert (0 <= idle i) by (unfold idle; destruct (Nat.eqb i 0); lia).
+          assert (Hu : uses newp i = true) by (apply uses_spec; cbn [pg_w2s newp]; apply (Hcover_ins i h l Hin)).
+          rewrite Hu. lia.
         * destruct (Hunch i Hnin) as [H1 _]. rewrite H1. cbn [d2 with_refs dv_refs].
           rewrite nth_incr_known by exact Hltn. pose proof (j_refs _ I i Hltn) as Hr.
-          destruct (uses {| pg_name := name; pg_w2s := w4; pg_segs := map fst segs |} i) eqn:Eu.
-          2:{ destruct (existsb _ (d_w2s dec)); lia. }
-          apply uses_spec in Eu. cbn [pg_w2s] in Eu. apply In_nth_error in Eu as (j & Hj).
-          destruct (Hentry j _ Hj) as (i' & Heq & _ & _ & Himp). assert (i' = i) by lia. subst i'.
-          specialize (Himp Hlt Hnin). apply existsb_Z_in in Himp. rewrite Himp. lia.
+          destruct (uses newp i) eqn:Eu.
+          { apply uses_spec in Eu. cbn [pg_w2s newp] in Eu. apply In_nth_error in Eu as (j & Hj).
+            destruct (Hentry j _ Hj) as (i' & Heq & _ & _ & Himp). assert (i' = i) by lia. subst i'.
+            specialize (Himp Hlt Hnin). apply existsb_Z_in in Himp. rewrite Himp. lia. }
+          { destruct (existsb (Z.eqb (Z.of_nat i)) (d_w2s dec)) eqn:Ew; [|lia].
+            apply existsb_Z_in in Ew. apply Hcover_w in Ew.
+            assert (uses newp i = true) by (apply uses_spec; exact Ew). congruence. }
       + rewrite nth_firstn_app2 by lia.
         assert (Hone : nth (i - F) (map (fun _ : Z * Z => 1) segsA) 0 = 1).
         { rewrite (nth_map_lt (fun _ : Z * Z => 1) _ _ _ (0, 0)) by lia. reflexivity. }
         rewrite Hone. rewrite cnt_zero_unused.
         2:{ intros p Hp. destruct (uses p i) eqn:Eu; [|reflexivity]. destruct (Hold_lt p i Hp Eu). lia. }
         assert (idle i = 0). { unfold idle. destruct (Nat.eqb_spec i 0); [lia|reflexivity]. }
-        lia.
+        assert (Hu : uses newp i = true).
+        { apply uses_spec. cbn [pg_w2s newp]. replace (Z.of_nat i) with (fidx (i - F)%nat) by (unfold fidx; lia).
+          apply Hcover_am. lia. }
+        rewrite Hu. lia.
     - (* every program's slots hold its data *)
       rewrite Hk3. cbn [d2 with_refs dv_known]. constructor.
       + split; cbn [pg_w2s pg_segs].
@@ -714,8 +776,32 @@ Theorem history_refcounts_gen (place : place_fun) :
 Proof.
   intros place_ok total ops i d Hi.
   assert (I : J d) by (apply (J_run place place_ok); apply J_clear).
-  exact (j_refs _ I i Hi).
+  pose proof (j_refs _ I i Hi) as H. unfold cnt, uses, idle in H. lia.
 Qed.
+
+(* round 4: ... with equality.  No count is leaked: a slot whose count is positive is played by a known program (or is
+   the idle slot), so cleanup() / the placement never treat a dead slot as reserved for ever. *)
+Theorem history_refcounts_exact_gen (place : place_fun) :
+  (forall mem nh nl d, Forall (fun r => 0 <= r) (m_refs mem) -> place mem nh nl = Ok d -> decision_ok mem nh nl d) ->
+  forall total ops i,
+  let d := run_with place (clear total) ops in
+  (i < length (dv_refs d))%nat ->
+  nth i (dv_refs d) 0 =
+  Z.of_nat (length (filter (fun p => existsb (Z.eqb (Z.of_nat i)) (pg_w2s p)) (dv_known d)))
+  + (if Nat.eqb i 0 then 1 else 0).
+Proof.
+  intros place_ok total ops i d Hi.
+  assert (I : J d) by (apply (J_run place place_ok); apply J_clear).
+  pose proof (j_refs _ I i Hi) as H. unfold cnt, uses, idle in H. lia.
+Qed.
+
+Theorem history_refcounts_exact total ops i :
+  let d := run (clear total) ops in
+  (i < length (dv_refs d))%nat ->
+  nth i (dv_refs d) 0 =
+  Z.of_nat (length (filter (fun p => existsb (Z.eqb (Z.of_nat i)) (pg_w2s p)) (dv_known d)))
+  + (if Nat.eqb i 0 then 1 else 0).
+Proof. exact (history_refcounts_exact_gen find_place find_place_decision_ok total ops i). Qed.
 
 Theorem history_refcounts total ops i :
   let d := run (clear total) ops in
@@ -733,7 +819,7 @@ Theorem history_idle_slot total ops :
 Proof.
   intros d. assert (I : J d) by (apply (J_run find_place find_place_decision_ok); apply J_clear).
   split; [rewrite (j_len_d _ I); apply I|]. split; [apply I|]. split; [rewrite (j_belief _ I); apply I|].
-  exact (j_refs _ I 0%nat (j_pos _ I)).
+  pose proof (j_refs _ I 0%nat (j_pos _ I)) as H. unfold cnt, uses, idle in H. cbn [Nat.eqb Z.of_nat] in H. lia.
 Qed.
 
 (* non-vacuity for slot 0: two programs containing a segment identical to the idle waveform share slot 0; the first
